@@ -177,6 +177,10 @@ def type_hint(ty):
     return "v", ty   # list/set/dict/deque/fn/str/<ClassName>
 
 
+def HAS_PROP_FIELDS():
+    return any(t.startswith("prop:") for c in CLASSES.values() for t in c.fields.values())
+
+
 def HAS_MAYBE_FIELDS():
     return any(t.startswith("maybe:") for c in CLASSES.values() for t in c.fields.values())
 
@@ -208,7 +212,12 @@ class Exec:
 
     # ---------------------------------------------------------------- utilities
     def fresh(self, name, sort):
-        return Const(f"{name}!{next(self.counter)}", sort)
+        c = Const(f"{name}!{next(self.counter)}", sort)
+        if name == "H_S_dkeys":
+            # every later heap keeps the dict typing fact of the entry heap: the keys of a dict are duplicate free
+            o = Const("o", V)
+            self.extra_axioms.append(ForAll([o], L.nodup(Select(c, o)), patterns=[Select(c, o)]))
+        return c
 
     def fresh_sv(self, name, ty):
         if ty.startswith("args:"):
@@ -536,16 +545,49 @@ def _patch_engine():
                     pass
             if isinstance(sub, (ast.ListComp, ast.SetComp, ast.DictComp, ast.List, ast.Set, ast.Dict)):
                 return False     # allocates
+            if isinstance(sub, ast.Attribute) and HAS_PROP_FIELDS() and self.prop_key(sub, st) is not None:
+                return False     # property under contract: a contract call
         return True
     E.is_pure = is_pure
+
+    def prop_key(self, node, st):
+        """contract key of the property `node` reads (field declared 'prop:<key>' in its class), else None"""
+        if not any(node.attr in c.fields and c.fields[node.attr].startswith("prop:") for c in CLASSES.values()):
+            return None
+        try:
+            b = self.pev(node.value, st, Mode(True))
+        except Exception:
+            return None
+        if b.kind == "v" and b.hint in CLASSES:
+            ty = self.lookup_field_type(CLASSES[b.hint], node.attr)
+            if ty and ty.startswith("prop:"):
+                return ty[5:]
+        return None
+    E.prop_key = prop_key
+
+    def len_method(self, call, st):
+        if len(call.args) != 1 or not self.is_pure(call.args[0], st):
+            return None
+        try:
+            a = self.pev(call.args[0], st, Mode(True))
+        except Exception:
+            return None
+        if a.kind == "v" and a.hint in CLASSES and not CLASSES[a.hint].isa and not CLASSES[a.hint].view:
+            return self.lookup_method(CLASSES[a.hint], "__len__")
+        return None
+    E.len_method = len_method
 
     def call_is_pure(self, call, st):
         f = call.func
         txt = ast.unparse(f)
         if txt in self.c.callees:
             t0 = self.callee_target(txt)[0]
+            if t0.startswith("subst:"):
+                return self.is_pure(ast.parse(t0[6:], mode="eval").body, st)
             return t0.startswith("pure:") or t0 in ("identity", "id")
         if isinstance(f, ast.Name):
+            if f.id == "len" and self.len_method(call, st) is not None:
+                return False        # len(obj) of a class whose __len__ is under contract: a contract call
             if f.id in PURE_BUILTINS or f.id in SPEC_FUNCS or f.id.startswith("pure_"):
                 return True
             if f.id in ("list", "set", "dict", "reversed", "sorted"):
@@ -807,6 +849,10 @@ def _patch_engine():
                 return sub
             if isinstance(op, ast.GtE):
                 return sup
+        if self.is_float(a) or self.is_float(b):
+            # real-number comparison: an uninterpreted predicate of the two operands (no arithmetic facts are assumed)
+            f = Function("fcmp_" + type(op).__name__, V, V, BoolSort())
+            return f(self.to_v(a), self.to_v(b))
         x, y = self.as_int(a), self.as_int(b)
         if isinstance(op, ast.Lt):
             return x < y
@@ -818,6 +864,10 @@ def _patch_engine():
             return x >= y
         raise OutOfSubset("comparison op")
     E.compare = compare
+
+    def is_float(self, sv):
+        return sv.kind == "v" and sv.hint == "float"
+    E.is_float = is_float
 
     def is_str(self, sv):
         return (sv.kind == "py" and isinstance(sv.py, str)) or (sv.kind == "v" and sv.hint == "str")
@@ -841,6 +891,10 @@ def _patch_engine():
                 return SV("set", self.def_set(lambda x: And(Select(sa, x), Not(Select(sb, x))), m.under))
             if isinstance(op, ast.BitXor):
                 return SV("set", self.def_set(lambda x: Select(sa, x) != Select(sb, x), m.under))
+        if self.is_float(a) or self.is_float(b):
+            # float arithmetic is opaque: an uninterpreted function of the operands
+            f = Function("fop_" + type(op).__name__, V, V, V)
+            return SV("v", f(self.to_v(a), self.to_v(b)), "float")
         x, y = self.as_int(a), self.as_int(b)
         if isinstance(op, ast.Add):
             return sv_int(x + y)
@@ -1007,6 +1061,8 @@ def _patch_engine():
                 return sv_int(L.idof(self.to_v(self.pev(args[0], st, m))))
             if tgt.startswith("pure:"):
                 return self.apply_pure(tgt[5:], [self.pev(a, st, m) for a in args], st)
+            if tgt.startswith("subst:"):
+                return self.pev(ast.parse(tgt[6:], mode="eval").body, st, m)
         if txt in ("cython.cast", "typing.cast"):
             return self.pev(args[1], st, m)
         if isinstance(f, ast.Name):
@@ -1553,6 +1609,10 @@ def _patch_exec():
         t = type(node)
         if t is ast.Call:
             return self.ev_call(node, st, ctx, k)
+        if t is ast.Attribute and self.is_pure(node.value, st) and HAS_PROP_FIELDS() and self.prop_key(node, st) is not None:
+            empty = ast.Call(func=node, args=[], keywords=[])
+            ast.copy_location(empty, node)
+            return self.ev_contract_call(FUNCS[self.prop_key(node, st)], node.value, empty, st, ctx, k)
         if t is ast.BoolOp:
             return self.ev_boolop(node, 0, st, ctx, k)
         if t is ast.IfExp:
@@ -1875,6 +1935,7 @@ def _patch_exec():
             return self.do_yield(v, st, ctx)
         if isinstance(v, ast.YieldFrom):
             return self.do_yield_from(v, st, ctx)
+        self._discarded_call = v        # the value of this expression statement is not used
         self.ev(v, st, ctx, lambda sv, st2: ctx.k(st2))
     E.ex_Expr = ex_Expr
 
@@ -2077,8 +2138,7 @@ def _patch_exec():
 
     def seq_remove(self, s, x):
         """s without the first occurrence of x (x is a member)"""
-        p = L.pos(s, x)
-        return L.cat(L.slc(s, IntVal(0), p), L.slc(s, p + 1, L.slen(s)))
+        return L.srem(s, x)
     E.seq_remove = seq_remove
 
     def ex_With(self, s, st, ctx):
@@ -2353,7 +2413,7 @@ def _patch_loops():
                                 fnc = FUNCS[CLASSES[r.hint].methods[extra.func.attr]]
                         except Exception:
                             pass
-                    if tgt and (tgt.startswith("havoc:") or tgt.startswith("newobj:") or tgt in ("ddset", "newdeque")):
+                    if tgt and (tgt.startswith("havoc:") or tgt.startswith("newobj:") or tgt.startswith("subst:") or tgt in ("ddset", "newdeque")):
                         continue
                     if fnc is None or any(mm == "*" for mm in fnc.modifies):
                         raise OutOfSubset(f"loop body calls {txt} whose frame is unknown")
@@ -2457,6 +2517,9 @@ def _patch_loops():
             # each(S).f : field f of every member of the sequence S
             sq = self.as_seq(self.pev(node.value.args[0], st, m), st)
             return [(node.attr, ("members", sq))]
+        if isinstance(node, ast.Attribute) and isinstance(node.value, ast.Name) and node.value.id == "any" and node.attr == "contents":
+            # any.contents : the contents of any builtin container (list / set / dict)
+            return [(mn, ("any",)) for mn in ("$seq", "$set", "$dkeys", "$dval")]
         if isinstance(node, ast.Attribute) and isinstance(node.value, ast.Name) and node.value.id == "any":
             return [(node.attr, ("any",))]       # any.f : field f of any object (the postcondition has to pin it down)
         if isinstance(node, ast.Attribute):
@@ -2501,7 +2564,10 @@ def _patch_loops():
             h = dict(st.heap)
             h[nm] = new
             return st.copy(heap=h).assume(ForAll([o], Implies(Not(L.mem(obj[1], o)), Select(new, o) == Select(cur, o)), patterns=[Select(new, o)]))
-        return self.hset(st, nm, obj, self.fresh("hv", cur.sort().range()))
+        hv = self.fresh("hv", cur.sort().range())
+        if nm == "$dkeys":
+            st = st.assume(L.nodup(hv))
+        return self.hset(st, nm, obj, hv)
     E.havoc_spot = havoc_spot
 
     def inv_clauses(self, k_ord):
@@ -2541,6 +2607,7 @@ def _patch_loops():
                 return step(0, st1)
             it_node = s.iter
             # enumerate / zip / range handled as index-aligned views
+            self._cur_for = s
             seq, elem = self.iter_view(it_node, itsv, st1)
             n = L.slen(seq) if seq is not None else elem["n"]
             st_entry = st1.copy(ghost=dict(st1.ghost, **{f"$loop{k_ord}_entry": st1}))
@@ -2670,6 +2737,24 @@ def _patch_loops():
             d = st.env[itsv.hint[7:]]
             sq = self.set_order(Select(self.hget(st, "$dd", d.t), itsv.t))
             return sq, (lambda i: SV("v", L.at(sq, i), None))
+        if (isinstance(node, ast.Subscript) and isinstance(node.slice, ast.Slice) and node.slice.step is None
+                and self.is_pure(node, st) and not any("prefix(" in cl for cl in self.inv_clauses(self.loop_ordinals.get(id(self._cur_for), -1)))):
+            # for x in s[a:b]: an index-shifted view of s itself (no slice term: x_i = s[a' + i], a'/b' the clamped bounds)
+            try:
+                base = self.pev(node.value, st, Mode(False, None, None))
+            except OutOfSubset:
+                base = None
+            if base is not None and (base.kind == "seq" or (base.kind == "v" and base.hint in ("list", "deque"))):
+                bs = self.as_seq(base, st)
+                nb = L.slen(bs)
+                lo = self.as_int(self.pev(node.slice.lower, st, Mode(False, None, None))) if node.slice.lower is not None else None
+                hi = self.as_int(self.pev(node.slice.upper, st, Mode(False, None, None))) if node.slice.upper is not None else None
+                a, b = self.clamp_slice(lo, hi, nb)
+                et = self.elem_type(node, itsv)
+                kind, hint = type_hint(et)
+                if kind == "int":
+                    return None, {"n": b - a, "at": lambda i: SV("int", L.iunbox(L.at(bs, a + i)))}
+                return None, {"n": b - a, "at": lambda i: SV("v", L.at(bs, a + i), hint)}
         sq = self.as_seq(itsv, st)
         et = self.elem_type(node, itsv)
         kind, hint = type_hint(et)
@@ -2738,6 +2823,9 @@ def _patch_calls():
             if spec is not None:
                 fnc = FUNCS[tgt]
                 call = node
+                if spec.get("expect") and ast.unparse(node) != spec["expect"]:
+                    # the assumed contract describes this call with exactly these arguments (e.g. sorted(..., reverse=True))
+                    raise OutOfSubset(f"call `{ast.unparse(node)[:80]}` differs from the form its assumed contract describes: `{spec['expect'][:80]}`")
                 if "args" in spec:
                     call = ast.Call(func=node.func, args=[ast.parse(a, mode="eval").body for a in spec["args"]], keywords=[])
                     ast.copy_location(call, node)
@@ -2751,6 +2839,20 @@ def _patch_calls():
                     # the call site knows more about the result's class than the callee's (generic) contract does
                     k2 = lambda r, st9: k(SV("v", self.to_v(r), spec["returns"]), st9)
                 return self.ev_contract_call(fnc, recv_node, call, st, ctx, k2)
+            if tgt.startswith("clobber:"):
+                # a call whose only modelled effect is an arbitrary change of the contents of the named container
+                # (sound over-approximation of e.g. d.update(<comprehension>)); its arguments are not evaluated
+                sv = self.pev(ast.parse(tgt[8:], mode="eval").body, st, Mode(True))
+                st2 = st
+                for mn in (self.content_maps(sv) or []):
+                    st2 = self.havoc_spot(st2, mn, sv.t)
+                return k(NONE, st2)
+            if tgt.startswith("subst:"):
+                # the call stands for the given expression (e.g. self.__dict__.get("x", None) ~ the may-be-None field self.x)
+                sub = ast.parse(tgt[6:], mode="eval").body
+                ast.copy_location(sub, node)
+                ast.fix_missing_locations(sub)
+                return self.ev(sub, st, ctx, k)
             if tgt == "noop":
                 # logging / event hooks: arguments are not evaluated (assumed free of side effects on the modelled state)
                 return k(NONE, st)
@@ -2792,6 +2894,10 @@ def _patch_calls():
             raise ContractError(f"callee mapping {txt} -> {tgt}?")
         if isinstance(f, ast.Name):
             n = f.id
+            if n == "len" and self.len_method(node, st) is not None:
+                empty = ast.Call(func=node.func, args=[], keywords=[])
+                ast.copy_location(empty, node)
+                return self.ev_contract_call(FUNCS[self.len_method(node, st)], node.args[0], empty, st, ctx, k)
             if n in ("list", "set", "dict", "frozenset", "reversed", "sorted", "deque"):
                 return self.ev_list(node.args, st, ctx, lambda svs, st2: self.construct_builtin(n, svs, node, st2, ctx, k))
             sv = st.env.get(n)
@@ -3095,6 +3201,9 @@ def _patch_calls():
         def present(st2):
             k(val, self.hset(st2, "$dkeys", recv.t, self.seq_remove(keys, kk)))
         if len(args) > 1:
+            if getattr(self, "_discarded_call", None) is node:
+                # d.pop(k, default) as a statement: one merged successor state instead of a present/absent fork
+                return k(NONE, self.hset(st, "$dkeys", recv.t, If(has, self.seq_remove(keys, kk), keys)))
             return self.fork(has, st, present, lambda st2: k(args[1], st2), node)
         self.branch_checks([(has, "KeyError", node)], st, ctx, present)
     E.bm_dict_pop = bm_dict_pop
@@ -3518,6 +3627,9 @@ def _patch_run():
                                  patterns=[Select(Select(arr, o), x)]))
         hy.append(And(Select(a0, L.None_), Select(a0, L.True_), Select(a0, L.False_)))
         hy.append(ForAll([i], Select(a0, L.ibox(i)), patterns=[L.ibox(i)]))
+        # the elements of a tuple that exists at entry exist at entry
+        hy.append(ForAll([x, i], Implies(And(Select(a0, x), L.is_tup(x), 0 <= i, i < L.slen(L.sunbox(x))), Select(a0, L.at(L.sunbox(x), i))),
+                         patterns=[L.at(L.sunbox(x), i)]))
         # dict keys are duplicate free
         if "$dkeys" in self.heap0:
             hy.append(ForAll([o], L.nodup(Select(self.heap0["$dkeys"], o)), patterns=[Select(self.heap0["$dkeys"], o)]))
